@@ -572,6 +572,9 @@ func (s *Sim) Run(caller func()) (res Result) {
 		if !s.opt.Replay && s.opt.Faults.ClockJumpRate > 0 && s.rng.Chance(s.opt.Faults.ClockJumpRate) {
 			// clock-jump fault: simulated time passes while actors are still parked
 			d := time.Duration(1+s.rng.Intn(5000)) * time.Millisecond
+			if s.rng.Chance(0.2) {
+				d = time.Duration(5+s.rng.Intn(115)) * time.Second // now and then a long stall of everybody
+			}
 			s.pushTape(clockJumpMark | uint32(d/time.Millisecond))
 			s.doClockJump(d)
 			continue
